@@ -344,8 +344,8 @@ class Engine:
                  intrinsics=None, auto_inline=True, max_inline_blocks=60):
         """crates: list of ir.Crate (local bodies may be inlined)."""
         self.crates = crates if isinstance(crates, (list, tuple)) else [crates]
-        self.inline = set(inline or [])
-        self.no_inline = set(no_inline or [])
+        self.inline = set(strip_generics(x) for x in (inline or []))
+        self.no_inline = set(strip_generics(x) for x in (no_inline or []))
         self.max_paths = max_paths
         self.max_depth = max_depth
         self.auto_inline = auto_inline
@@ -730,9 +730,10 @@ class Engine:
     def should_inline(self, body, depth):
         if body is None:
             return False
-        if body.path in self.no_inline:
+        sp = strip_generics(body.path)
+        if sp in self.no_inline:
             return False
-        if body.path in self.inline:
+        if sp in self.inline:
             return True
         if not self.auto_inline:
             return False
